@@ -106,4 +106,37 @@ Definition universe_partition (s : state) (du : list (Z * list Z)) : Prop :=
     dget c (s_cells s) = Some cl -> dget c' (s_cells s) = Some cl' ->
     Den s q (c_geom cl) true -> Den s q (c_geom cl') false.
 
+(* what the cell [k] of the table [s'] must be to stand for the descent [ch] below [key] of the
+   deck [s] (the table before FILL was developed): no FILL left, the provenance of the descent,
+   material and density of the descent's last cell, the value of the descent at every point,
+   and nothing outside the container *)
+Definition Represents (s : state) (du : list (Z * list Z)) (s' : state) (key k : Z) (ch : list Z)
+  : Prop :=
+  exists ncl lcl,
+    dget k (s_cells s') = Some ncl /\
+    dget (last ch 0) (s_cells s) = Some lcl /\
+    c_fill ncl = None /\
+    c_orig ncl = prov ch /\
+    c_mat ncl = c_mat lcl /\ c_rho ncl = c_rho lcl /\
+    (forall p b, LocB s du key p ch b -> Den s' p (c_geom ncl) b) /\
+    (forall p, Den s' p (c_geom ncl) true -> Den s' p (TRef key) true).
+
+(* the verdict at a point [p] located along [ch]: the cell standing for [ch] is true, and, when
+   universes are partitions, the cell standing for any other descent (that has a value at all)
+   is false *)
+Definition Verdict (s : state) (du : list (Z * list Z)) (s' : state) (key : Z) (p : P)
+           (ch : list Z) (k : Z) (ch' : list Z) : Prop :=
+  (ch' = ch -> Den s' p (TRef k) true) /\
+  (universe_partition s du -> ch' <> ch ->
+   forall b', LocB s du key p ch' b' -> Den s' p (TRef k) false).
+
+(* what developing the FILL of [key] must achieve: one cell per descent, in the order of the
+   universe lists, each standing for its descent; every located descent is among them, with the
+   verdicts above *)
+Definition Outcome (s : state) (du : list (Z * list Z)) (s' : state) (key : Z) (ks : list Z) : Prop :=
+  exists chs,
+    Paths s du key chs /\ Forall2 (Represents s du s' key) ks chs /\
+    forall p ch, Located s du key p ch ->
+      In ch chs /\ Forall2 (Verdict s du s' key p ch) ks chs.
+
 End Spec.
